@@ -510,6 +510,9 @@ func GenScenario(p *Program, r *Rand, exec uint64, tagName string, k int) *Scena
 			}
 		}
 		s.GateOpen = "hwm"
+		if k%2 == 1 && p.ConstConc == 0 {
+			s.Conc = 0 // cff.Concurrency(0), where the option is present: the default limit
+		}
 	case "state":
 		// One function is held until the first scheduler state report arrives
 		// (the default flush interval is 100 ms); the report releases it.
